@@ -758,3 +758,11 @@ V("C13", "plain-summary-missing-shows-bad", "F", "R11", R + "lint.py", '_("Missi
 V("C13", "plain-summary-deprecated-shows-unused", "F", "R11", R + "lint.py", '_("Deprecated licenses:"): ", ".join(report.deprecated_licenses),', '_("Deprecated licenses:"): ", ".join(report.unused_licenses),')
 V("C12", "continue-one-past-end-marker-in-rest", "F", "R2", R + "extract.py", "filter_ignore_block(rest[ignore_end:])", "filter_ignore_block(rest[ignore_end + 1 :])")
 V("C12", "continue-at-start-offset-in-rest", "F", "R2", R + "extract.py", "filter_ignore_block(rest[ignore_end:])", "filter_ignore_block(rest[ignore_start:])")
+# round 15 (held out): twenty more behaviour-preserving refactorings, written AFTER the corrections of round 14 by sub-agents
+# that again saw only a property's text; first contact: 14 of 20 without a violation.  Same expectation: never a violation.
+for _c in ("C03", "C06", "C07", "C09", "C10", "C13", "C14", "C16", "C18", "C19"):
+    for _k in (1, 2):
+        for _j in range(1, 21):
+            _p = f"C{_j:02d}"
+            VARIANTS.append({"prop": _p, "id": f"{_p}:r15-heldout-{_c}-{_k}", "expect": "N", "rule": "", "edits": [],
+                             "patchfile": _os.path.join(_BP, f"r15-{_c}-{_k}.diff")})
